@@ -5,6 +5,8 @@ C = '/verif/coq'
 files = [l.strip() for l in open(C + '/FILES') if l.strip() and not l.startswith('#')]
 gen = ['Gen/CurveConsts.v', 'Gen/FfConsts.v', 'Gen/FfgConsts.v', 'Gen/GoldTables.v', 'Gen/PoseidonMeta.v'] + \
       ['Gen/PoseidonT%d.v' % t for t in range(2, 18)]
+if any(f.startswith('Proofs/FfRoutinesEq') for f in files):
+    gen += ['Gen/FfRoutines.v', 'Gen/FfgRoutines.v']
 if any(f.startswith('Proofs/EffectsVerdict') for f in files):
     gen.append('Gen/EffectsIR.v')
 open(C + '/_CoqProject', 'w').write('-Q . Verif\n' + '\n'.join(gen + files) + '\n')
